@@ -180,7 +180,7 @@ def run(ctx):
     import unified_planning as up
     ok_proofs = ctx.check_props(extra=["theories/Corr/Corr_C05.v"])
     rng = ctx.rng
-    nprob = 30 if ctx.quick else 250
+    nprob = 30 if ctx.quick else 300
     nplans = 20 if ctx.quick else 60
     pre, cases, owners = [], [], []
     stats = {"problems": 0, "skipped": {}, "plans": 0, "valid": 0, "invalid": 0, "raised": 0, "outside_supported": 0,
